@@ -447,7 +447,8 @@ class cleanup_functools_wrapper(object):
                 try:
                     value = getattr(self.func, attr)
                     delattr(self.func, attr)
-                except AttributeError:
+                except (AttributeError, TypeError):
+                    # TypeError: attributes of builtin types can't be deleted
                     pass
                 else:
                     self.saved_attrs[attr] = value
